@@ -57,11 +57,18 @@ func verifC11_TrafficController() {
 	eb, _ := vEntity("b", 1, 1)
 	tc.CreatePipeline(ns, ea)
 	tc.CreatePipeline(ns, eb)
+	// the namespace holds pipelines only, or a traffic gate as well
+	withGate := verifBool("namespaceHasTrafficGate")
+	if withGate {
+		eg, _ := vEntity("g", 1, 1)
+		tc.CreateTrafficGate(ns, eg)
+	}
 	space := tc.namespaces[ns] // what an HTTP server holds as its MuxMapper
 	verifRaceScope(tc, "TrafficController")
 
 	// the mutator: one admin operation on a or on another object
-	op := verifChoose("operation", 5)
+	op := verifChoose("operation", 6)
+	verifAssume(op != 5 || withGate)
 	ea2, pa2 := vEntity("a", 2, verifInt("a.newRevision", 1, 2))
 	ec, _ := vEntity("c", 1, 1)
 	var wg sync.WaitGroup
@@ -80,6 +87,8 @@ func verifC11_TrafficController() {
 		case 4:
 			tc.DeletePipeline(ns, "b")
 			tc.CreatePipeline(ns, ec)
+		case 5:
+			tc.DeleteTrafficGate(ns, "g") // the only traffic gate goes, the pipelines stay
 		}
 	}()
 	// the request: looks up pipeline a at any moment
@@ -111,4 +120,23 @@ func verifC11_TrafficController() {
 	}
 	_, okb := space.GetHandler("b")
 	verifAssert(okb == (op != 2 && op != 4), "b-present-unless-deleted")
+	// the controller's own view (what later lookups, listings and new traffic gates see)
+	_, regA := tc.GetPipeline(ns, "a")
+	verifAssert(regA, "pipeline-a-still-registered-in-the-controller")
+	_, regB := tc.GetPipeline(ns, "b")
+	verifAssert(regB == okb, "controller-and-namespace-agree-on-b")
+	if withGate {
+		_, regG := tc.GetTrafficGate(ns, "g")
+		verifAssert(regG == (op != 5), "traffic-gate-present-unless-deleted")
+		if op == 5 {
+			verifCover("last-traffic-gate-deleted")
+		}
+	} else if op == 2 {
+		verifCover("pipeline-deleted-in-a-pipelines-only-namespace")
+	}
+	// a traffic gate created afterwards resolves the surviving pipelines
+	en, _ := vEntity("n", 1, 1)
+	tc.CreateTrafficGate(ns, en)
+	hn, okn := tc.namespaces[ns].GetHandler("a")
+	verifAssert(okn && hn != nil, "a-new-traffic-gate-resolves-the-surviving-pipeline")
 }
